@@ -11,7 +11,6 @@ use axum::{
     Json, Router,
 };
 use easy_error::{ensure, Error, ResultExt};
-use futures::StreamExt;
 use prometheus::{
     register_histogram_vec, register_int_counter_vec, Encoder, HistogramVec, IntCounterVec,
     TextEncoder,
@@ -204,20 +203,26 @@ handler!(get_status(state: Extension<Arc<GlobalState>>) -> impl IntoResponse {
 });
 
 handler!(get_alive(state: Extension<Arc<GlobalState>>) -> impl IntoResponse {
-    Json(
-        futures::stream::iter(
-            state
-                .contexts
-                .alive
-                .lock()
-                .await
-                .values()
-                .filter_map(Weak::upgrade),
-        )
-        .then(|x| async move { x.read().await.props().clone() })
-        .collect::<Vec<_>>()
-        .await,
-    )
+    // The registry lock is only held to take a snapshot: every new connection needs it, and a
+    // context can keep its own lock for as long as a client takes to read a reply.
+    let contexts: Vec<_> = state
+        .contexts
+        .alive
+        .lock()
+        .await
+        .values()
+        .filter_map(Weak::upgrade)
+        .collect();
+    // A context whose lock stays taken (its client does not read what is being written to it)
+    // is left out rather than waited for.
+    let props = futures::future::join_all(contexts.iter().map(|x| async move {
+        tokio::time::timeout(std::time::Duration::from_secs(1), x.read())
+            .await
+            .ok()
+            .map(|ctx| ctx.props().clone())
+    }))
+    .await;
+    Json(props.into_iter().flatten().collect::<Vec<_>>())
 });
 
 handler!(get_history(state: Extension<Arc<GlobalState>>) -> impl IntoResponse {
